@@ -160,6 +160,26 @@ def build_history(case):
                 desc["silent"] = False
                 hist = [(prog, {"kind": "initial"}), (p1, desc)]
                 prog = p1
+    if case["idx"] % 16 == 9:
+        # aimed: a plain helper is re-executed with a body that reads a variable nothing mentioned before; everything is
+        # called; then that variable gets another value
+        nodes = prog["nodes"]
+        hs = [t for t in range(1, len(nodes)) if nodes[t]["kind"] == "plain" and nodes[t]["mod"] in ("a", "b") and not nodes[t].get("prev")
+              and any(any(c["t"] == t for c in progs.all_calls(nd)) for nd in nodes if nd["kind"] == "memento" and nd["version"] is None)]
+        if hs:
+            t = rng.choice(hs)
+            p1 = copy.deepcopy(prog)
+            p1["vars"].append({"name": "GN", "mod": nodes[t]["mod"], "type": "num", "value": 3})
+            vj = len(p1["vars"]) - 1
+            p1["nodes"][t]["reads"].append({"v": vj, "form": "bare"})
+            d1 = {"kind": "add_read", "node": t, "var": vj, "changed_defs": [t], "bumped": progs.bump_explicit_above(p1, node=t), "silent": False}
+            d1["changed_defs"] = sorted(set(d1["changed_defs"]) | set(d1["bumped"]))
+            p2 = copy.deepcopy(p1)
+            p2["vars"][vj]["value"] = 8
+            d2 = {"kind": "var_value", "node": None, "var": vj, "bumped": progs.bump_explicit_above(p2, var=vj), "silent": False}
+            d2["changed_defs"] = sorted(set(d2["bumped"]))
+            hist = [(prog, {"kind": "initial"}), (p1, d1), (p2, d2)]
+            prog = p2
     for k in range(case["edits"] - (len(hist) - 1)):
         prog, desc = progs.random_edit(rng, prog)
         # now and then several edits arrive before anything is called again
